@@ -490,6 +490,27 @@ class SlidingWindowView(Blockwise):
 
     _instances = weakref.WeakValueDictionary()
 
+    @functools.cached_property
+    def chunks(self):
+        # Every block loses ``window - 1`` along its windowed axes.  Derive the
+        # blocks from the input's current grid rather than from the sizes
+        # recorded at construction: a rewrite below (e.g. flips pushed into the
+        # operands of an elemwise input, which then unify to another layout)
+        # may move the input to a grid with the same number of blocks.
+        kwargs = self.kwargs or {}
+        window_shape, axes = kwargs.get("window_shape"), kwargs.get("axis")
+        if len(self.args) != 2 or self.args[1] is None or window_shape is None or axes is None:
+            return super().chunks
+        arg, ind = self.args
+        if tuple(self.out_ind[: len(ind)]) != tuple(ind) or len(set(axes)) != len(axes):
+            return super().chunks
+        depth = {int(ax): int(w) - 1 for ax, w in zip(axes, window_shape)}
+        derived = tuple(tuple(c - depth.get(ax, 0) for c in dim) for ax, dim in enumerate(arg.chunks))
+        if any(c < 1 for ax, dim in enumerate(derived) if depth.get(ax) for c in dim):
+            # a block narrower than the window: not a grid this node can run on
+            return super().chunks
+        return derived + tuple((int(w),) for w in window_shape)
+
     def _simplify_up(self, parent, dependents):
         from dask_array.reductions._reduction import Reduction
 
